@@ -52,6 +52,7 @@ var props = []prop{
 		Units: []unit{
 			{Name: "safeguard", Pkg: "internal/timesafeguard", Harness: "timesafeguard", Run: "^TestVerifC19$", Rapid: true, Quick: 160000, Thorough: 16000000, QuickTimeoutS: 300, ThoroughTimeoutS: 3000},
 			{Name: "network", Pkg: "internal/timesafeguard", Harness: "timesafeguard", Run: "^TestVerifC19Network$", Rapid: true, Quick: 1600, Thorough: 40000, QuickTimeoutS: 600, ThoroughTimeoutS: 3000},
+			nodeUnit("status", "^TestVerifC19Status$", 320, 8000),
 		},
 	},
 }
